@@ -6,7 +6,7 @@ SIZES = [0, 1, 1, 2, 3, 3, 4, 5, 7]
 NAMES = ["a", "b", "c", "n"]
 VNAMES = ["v", "w"]
 SYMS = ["a+1", "2*b", "a+b", "n-1", "min(a,b)", "a//2", "a%2", "(a+b)*2", "a//(b-b)", "{k}", "{k}+a", "max(a,1)",
-        "-a+10", "a*b-c", "{q}", "{k}*{m}", "a+{q}", "n%(a-a)", "3+0", "c-1"]
+        "-a+10", "a*b-c", "{q}", "{k}*{m}", "a+{q}", "n%(a-a)", "3+0", "c-1", "{a}", "{n}+a", "2*n"]
 SYMS_RAISE = ["{boom(0)}", "{boom(1)}", "a+{boom(0)}", "a+{boom(1)}"]
 
 
@@ -110,6 +110,11 @@ class Env:
         self.sizes = {n: rng.choice(SIZES) for n in NAMES}
         self.vshapes = {n: tuple(rng.choice(SIZES) for _ in range(rng.choice([0, 1, 2, 2, 3]))) for n in VNAMES}
         self.args = {"k": rng.choice([0, 1, 2, 3]), "m": rng.choice([1, 2, 5])}
+        # call arguments that happen to be NAMED like axes (def f(n: int, x: Float[Array, "n"]) ...): `{n}` is the argument, a bare `n`
+        # is the axis; the two namespaces never mix
+        for nm in ("a", "n", "b"):
+            if rng.random() < .3:
+                self.args[nm] = rng.choice([0, 1, 2, 3, 5])
 
 
 def shape_for(rng, toks, env, perturb):
